@@ -942,10 +942,32 @@ def _isnumf(o):
 
 
 class SymFloat:
-    __slots__ = ('t',)
+    """iv: optional (lo, hi) python floats known to bound the value
+    (propagated through multiplication/division by concrete finite numbers,
+    which are monotone under round-to-nearest)"""
+    __slots__ = ('t', 'iv')
 
-    def __init__(self, t):
+    def __init__(self, t, iv=None):
         self.t = t
+        self.iv = iv
+
+    def _scale(s, r, k, div=False):
+        if s.iv is None or isinstance(k, (SymInt, SymFloat)) or \
+                not isinstance(r, SymFloat):
+            return r
+        try:
+            k = float(k)
+            if k == 0 or k != k or k in (float('inf'), float('-inf')):
+                return r
+            a, b = (s.iv[0] / k, s.iv[1] / k) if div else \
+                (s.iv[0] * k, s.iv[1] * k)
+            lo, hi = min(a, b), max(a, b)
+            if lo == lo and hi == hi and lo != float('-inf') and \
+                    hi != float('inf'):
+                r.iv = (lo, hi)
+        except OverflowError:
+            pass
+        return r
 
     def _bin(s, o, f, rev=False):
         if not _isnumf(o):
@@ -968,10 +990,11 @@ class SymFloat:
         return s._bin(o, lambda a, b: z3.fpSub(RNE, a, b), True)
 
     def __mul__(s, o):
-        return s._bin(o, lambda a, b: z3.fpMul(RNE, a, b))
+        return s._scale(s._bin(o, lambda a, b: z3.fpMul(RNE, a, b)), o)
 
     def __rmul__(s, o):
-        return s._bin(o, lambda a, b: z3.fpMul(RNE, a, b), True)
+        return s._scale(s._bin(o, lambda a, b: z3.fpMul(RNE, a, b), True),
+                        o)
 
     def __truediv__(s, o):
         if not _isnumf(o):
@@ -979,7 +1002,7 @@ class SymFloat:
         d = tofloat(o)
         if ENG.branch(z3.fpIsZero(d)):
             raise ZeroDivisionError('float division by zero')
-        return wrapfloat(z3.fpDiv(RNE, s.t, d))
+        return s._scale(wrapfloat(z3.fpDiv(RNE, s.t, d)), o, True)
 
     def __rtruediv__(s, o):
         if not _isnumf(o):
@@ -1075,10 +1098,14 @@ def same_float(a, b):
 def float_ceil_int(x):
     """math.ceil on a (finite) symbolic float -> SymInt"""
     t = tofloat(x)
-    if ENG.branch(z3.Or(z3.fpIsNaN(t), z3.fpIsInf(t))):
+    bad = z3.Or(z3.fpIsNaN(t), z3.fpIsInf(t))
+    finite = isinstance(x, SymFloat) and x.iv is not None
+    if not finite and not ENG.valid(z3.Not(bad)) and ENG.branch(bad):
         if ENG.branch(z3.fpIsNaN(t)):
-            raise ValueError('cannot convert float NaN to integer')
-        raise OverflowError('cannot convert float infinity to integer')
+            raise deliberate(ValueError(
+                'cannot convert float NaN to integer'))
+        raise deliberate(OverflowError(
+            'cannot convert float infinity to integer'))
     r = z3.fpRoundToIntegral(z3.RTP(), t)
     return wrapint(z3.ToInt(z3.fpToReal(r)))
 
